@@ -24,6 +24,7 @@ package verify
 //@   modifies pbsrc, pbok
 //@   requires opts != nil
 //@   ensures[C01] err == nil ==> authenticSer(old(val(serializedEndorsement)), old(opts.RootsOfTrust), old(opts.Now))
+//@   ensures[C02] err == nil && old(len(opts.ExpectedUefiSha384)) != 0 ==> old(val(opts.ExpectedUefiSha384)) == pb("VMGoldenMeasurement.Digest", pb("VMLaunchEndorsement.SerializedUefiGolden", old(val(serializedEndorsement))))
 //@   ensures[C02] err == nil && old(opts.SNP) != nil ==> exists(g, *epb.VMGoldenMeasurement, g != nil && pbok[g] && snpEndorsed(g, old(opts.SNP.ExpectedLaunchVMSAs), old(val(opts.SNP.Measurement)), old(opts.SNP.Measurement == nil)))
 //@   assigns[C09] nothing
 
@@ -62,6 +63,8 @@ package verify
 //@   ensures[C01] err == nil && old(opts.Endorsement) == nil && serializedEndorsement != nil ==> authenticSer(old(val(serializedEndorsement)), old(opts.RootsOfTrust), old(opts.Now))
 //@   ensures[C01] err == nil && old(opts.Endorsement) == nil && serializedEndorsement == nil ==> authenticSer(lastGot, old(opts.RootsOfTrust), old(opts.Now))
 //@   ensures[C02] err == nil ==> attestation != nil && attestation.Report != nil && len(attestation.Report.Measurement) == 48
+//@   ensures[C02] err == nil && old(len(opts.ExpectedUefiSha384)) != 0 && old(opts.Endorsement) != nil ==> old(val(opts.ExpectedUefiSha384)) == pb("VMGoldenMeasurement.Digest", old(val(opts.Endorsement.SerializedUefiGolden)))
+//@   ensures[C02] err == nil && old(len(opts.ExpectedUefiSha384)) != 0 && old(opts.Endorsement) == nil && serializedEndorsement != nil ==> old(val(opts.ExpectedUefiSha384)) == pb("VMGoldenMeasurement.Digest", pb("VMLaunchEndorsement.SerializedUefiGolden", old(val(serializedEndorsement))))
 //@   ensures[C02] err == nil ==> exists(g, *epb.VMGoldenMeasurement, g != nil && pbok[g] && snpEndorsed(g, ite(old(opts.SNP) == nil, 0, old(opts.SNP.ExpectedLaunchVMSAs)), val(attestation.Report.Measurement), false))
 //@   assigns[C09] nothing
 
